@@ -85,9 +85,9 @@ type Cfg struct {
 	XinKinds []int // macro `xin` = B sends + commit B + honest update of A's client + receive on A (same receiver codes)
 	// block production: macro parts offer sync(chain) = commit + honest update of the other chain's client,
 	// the primitive part offers commit(chain) and client(chain) separately and relays with any of the three newest consensus heights
-	Sync       [2]int // syncs / commits per chain after the root
-	MaxDeliver int    // macro `deliver(i)` = commit A + update B's client + receive packet i on B + commit B + update A's client
-	MaxEpochs  int    // hour-boundary crossings
+	Sync       [2]int   // syncs / commits per chain after the root
+	MaxDeliver int      // macro `deliver(i)` = commit A + update B's client + receive packet i on B + commit B + update A's client
+	MaxEpochs  int      // hour-boundary crossings
 	Admin      []string // subset of: add, update, tighten, update2h, remove, reset
 	MaxAdmin   int
 	Toggles    []string // subset of: wl-out, wl-in, bl (keeper-level governance set-up: whitelist pair / blacklist denom)
@@ -130,12 +130,13 @@ const (
 	witWhitelisted
 	witBlacklisted
 	witDupRelayNoop
+	witTainted
 	nWit
 )
 
 var witNames = []string{"out_accepted", "out_rejected_by_quota", "in_accepted", "in_rejected_by_quota", "in_error_ack_blocked_receiver",
 	"refund_of_packet_counted_in_current_window", "timeout_or_error_ack_of_packet_from_older_window", "success_ack", "epoch_reset",
-	"epoch_without_reset", "admin_started_window", "whitelisted_transfer", "blacklisted_transfer_rejected", "duplicate_relay_noop"}
+	"epoch_without_reset", "admin_started_window", "whitelisted_transfer", "blacklisted_transfer_rejected", "duplicate_relay_noop", "diverged_states_not_expanded"}
 
 func (s *Sc) Chains() int { return 2 }
 
@@ -197,7 +198,7 @@ type model struct {
 	Exists       bool
 	Q            quota
 	In, Out, CV  int64
-	WinKind      string // how the current window started: add | update | tighten | update2h | reset | epoch
+	WinKind      string // how the current window started: add | update (any MsgUpdateRateLimit) | reset | epoch
 	WLOut, WLIn  bool   // pair (userA -> userB) / (userB -> userA) whitelisted
 	BL           bool   // denomination blacklisted
 	EpochNum     uint64 // reference hour epoch of chain A
@@ -205,13 +206,14 @@ type model struct {
 }
 
 type ext struct {
-	Pkts    []pkt
-	M       model
+	Pkts     []pkt
+	M        model
 	Commits  [2]int
 	Epochs   int
 	Admin    int
 	Toggles  int
 	Delivers int
+	Tainted  bool // the stored rate limit diverged from the reference window (reported); no successors are generated
 
 	// transient results of the last Apply (not part of the state key)
 	fail *ksim.Fail
@@ -219,7 +221,7 @@ type ext struct {
 }
 
 func (e *ext) Clone() ksim.Ext {
-	n := &ext{M: e.M, Commits: e.Commits, Epochs: e.Epochs, Admin: e.Admin, Toggles: e.Toggles, Delivers: e.Delivers}
+	n := &ext{M: e.M, Commits: e.Commits, Epochs: e.Epochs, Admin: e.Admin, Toggles: e.Toggles, Delivers: e.Delivers, Tainted: e.Tainted}
 	n.Pkts = append([]pkt{}, e.Pkts...)
 	return n
 }
@@ -254,6 +256,7 @@ func (e *ext) KeyBytes() []byte {
 	b(m.WLIn)
 	b(m.BL)
 	out = append(out, byte(e.Commits[0]), byte(e.Commits[1]), byte(e.Epochs), byte(e.Admin), byte(e.Toggles), byte(e.Delivers))
+	b(e.Tainted)
 	return out
 }
 
@@ -300,7 +303,7 @@ func (s *Sc) Init(wk *ksim.Worker) *ksim.World {
 	// an unfinished channel handshake on B only, so that the two ends of the transfer channel carry different identifiers
 	ksim.MustOK("offset channel on B", w.Tx(1, channeltypes.NewMsgChannelOpenInit(ibcmock.PortID, ibcmock.Version, channeltypes.UNORDERED, []string{l.ConnB}, ibcmock.PortID, ksim.Signer)))
 	ch := w.SetupChannel(l, port, port, transfertypes.V1, channeltypes.UNORDERED)
-	if ch.ChanA != "channel-0" || ch.ChanB != "channel-1" {
+	if ch.ChanA != chanA || ch.ChanB != chanB {
 		panic(fmt.Sprintf("c41: unexpected channel identifiers %s / %s", ch.ChanA, ch.ChanB))
 	}
 	for _, c := range wk.Chains {
@@ -308,8 +311,6 @@ func (s *Sc) Init(wk *ksim.Worker) *ksim.World {
 			panic("c41: the distribution module account is not a blocked address")
 		}
 	}
-	var denom, sendB string
-	var q0 quota
 	settle := func(src int, msg *transfertypes.MsgTransfer) {
 		dst := 1 - src
 		r := w.Tx(src, msg)
@@ -336,26 +337,24 @@ func (s *Sc) Init(wk *ksim.Worker) *ksim.World {
 	}
 	switch s.Path {
 	case pathVoucher:
-		// B's native token: 4 units travel to A before the limit exists (supply of the voucher on A = 4), 3 stay with user B
 		mint(w, 1, userB, "rlb", 7)
 		settle(1, transfertypes.NewMsgTransfer(port, ch.ChanB, sdk.NewInt64Coin("rlb", 4), userB.String(), userA.String(), farHeight, 0, ""))
-		denom = transfertypes.NewDenom("rlb", transfertypes.NewHop(port, ch.ChanA)).IBCDenom()
-		sendB = "rlb"
-		q0 = quota{50, 50, 1} // 50% of 4 = 2 units
 	case pathNative:
-		// A's native token: supply 6, 2 units travel to B before the limit exists (user B can send them home)
 		mint(w, 0, userA, "rla", 6)
 		settle(0, transfertypes.NewMsgTransfer(port, ch.ChanA, sdk.NewInt64Coin("rla", 2), userA.String(), userB.String(), farHeight, 0, ""))
-		denom = "rla"
-		sendB = transfertypes.NewDenom("rla", transfertypes.NewHop(port, ch.ChanB)).IBCDenom()
-		q0 = quota{40, 40, 1} // 40% of 6 = 2.4 -> 2 units
 	}
-	if !trackedDenom[denom] || !trackedDenom[sendB] {
-		panic("c41: denomination outside the tracked set")
-	}
+	denom, q0 := s.denom, s.q0
 	s.mu.Lock()
-	s.link, s.ch, s.denom, s.sendA, s.sendB, s.q0 = l, ch, denom, denom, sendB, q0
+	if s.link == nil {
+		s.link, s.ch = l, ch
+	} else if *s.link != *l || *s.ch != *ch {
+		s.mu.Unlock()
+		panic("c41: workers disagree on identifiers")
+	}
 	s.mu.Unlock()
+	if bal(w, 1, userB, s.sendB) < 2 {
+		panic("c41: user B is not funded")
+	}
 	if bal(w, 0, userA, denom) != 4 {
 		panic(fmt.Sprintf("c41: user A holds %d %s, expected 4", bal(w, 0, userA, denom), denom))
 	}
@@ -444,19 +443,38 @@ func (s *Sc) adminTx(w *ksim.World, kind string, q quota) ksim.Result {
 	return w.Tx(0, msg)
 }
 
-// dn / chID read the fixture (identical on every worker; written under the mutex in Init).
-func (s *Sc) dn() string {
-	if s.denom != "" {
-		return s.denom
+// newSc fixes the identifiers that follow from the deterministic bring-up (Init verifies them).
+func newSc(c *core.C, cfg Cfg) *Sc {
+	s := &Sc{Cfg: cfg, c: c}
+	switch cfg.Path {
+	case pathVoucher:
+		// B's native token: 4 units travel to A before the limit exists (supply of the voucher on A = 4), 3 stay with user B
+		s.denom = transfertypes.NewDenom("rlb", transfertypes.NewHop(port, chanA)).IBCDenom()
+		s.sendB = "rlb"
+		s.q0 = quota{50, 50, 1} // 50% of 4 = 2 units
+	case pathNative:
+		// A's native token: supply 6, 2 units travel to B before the limit exists (user B can send them home)
+		s.denom = "rla"
+		s.sendB = transfertypes.NewDenom("rla", transfertypes.NewHop(port, chanB)).IBCDenom()
+		s.q0 = quota{40, 40, 1} // 40% of 6 = 2.4 -> 2 units
+	default:
+		panic("c41: unknown path")
 	}
-	// during Init of the first worker
-	if s.Path == pathVoucher {
-		return transfertypes.NewDenom("rlb", transfertypes.NewHop(port, "channel-0")).IBCDenom()
+	s.sendA = s.denom
+	if !trackedDenom[s.denom] || !trackedDenom[s.sendB] {
+		panic("c41: denomination outside the tracked set")
 	}
-	return "rla"
+	return s
 }
 
-func (s *Sc) chID() string { return "channel-0" }
+// identifiers of the transfer channel ends (asserted in Init)
+const (
+	chanA = "channel-0"
+	chanB = "channel-1"
+)
+
+func (s *Sc) dn() string   { return s.denom }
+func (s *Sc) chID() string { return chanA }
 
 // commitA commits chain A and lets the reference hour epoch follow: when the new block's time is past the end
 // of the current hour the next hour starts, and a limit whose duration divides the hour number starts a new window.
@@ -493,6 +511,9 @@ func (s *Sc) proofHeights(w *ksim.World, dst int) []int {
 
 func (s *Sc) Ops(w *ksim.World) []ksim.Op {
 	e := xt(w)
+	if e.Tainted {
+		return nil
+	}
 	var ops []ksim.Op
 	nOut, nIn := 0, 0
 	for _, p := range e.Pkts {
@@ -799,8 +820,11 @@ func (s *Sc) Apply(w *ksim.World, op ksim.Op) ksim.Result {
 			case "reset":
 				s.startWindow(w, "reset", pre.Q) // a reset keeps the quota
 				e.wit = append(e.wit, witAdminWindow)
-			default:
-				s.startWindow(w, op.K, q)
+			case "add":
+				s.startWindow(w, "add", q)
+				e.wit = append(e.wit, witAdminWindow)
+			default: // the three MsgUpdateRateLimit variants
+				s.startWindow(w, "update", q)
 				e.wit = append(e.wit, witAdminWindow)
 			}
 		}
@@ -854,7 +878,9 @@ func (s *Sc) Apply(w *ksim.World, op ksim.Op) ksim.Result {
 	// the stored rate limit must equal the reference window
 	if field, text := s.compare(w); field != "" {
 		fail(fmt.Sprintf("flow-mismatch/%s/after-%s+%s", field, e.M.WinKind, opClass), "after %s: %s", op, text)
-		s.resync(w)
+		// everything below this state would only repeat the divergence: the subtree is not explored further
+		e.Tainted = true
+		e.wit = append(e.wit, witTainted)
 	}
 	return r
 }
@@ -966,20 +992,6 @@ func (s *Sc) compare(w *ksim.World) (string, string) {
 	return "", ""
 }
 
-// resync adopts the stored values after a reported mismatch so that one defect is reported once per
-// distinct cause instead of in every descendant state.
-func (s *Sc) resync(w *ksim.World) {
-	e := xt(w)
-	rl, found := w.W.Chains[0].App.RateLimitKeeper.GetRateLimit(w.CS[0].Ctx, s.dn(), s.chID())
-	e.M.Exists = found
-	if !found {
-		e.M.In, e.M.Out, e.M.CV = 0, 0, 0
-		return
-	}
-	e.M.Q = quota{rl.Quota.MaxPercentSend.Int64(), rl.Quota.MaxPercentRecv.Int64(), rl.Quota.DurationHours}
-	e.M.In, e.M.Out, e.M.CV = rl.Flow.Inflow.Int64(), rl.Flow.Outflow.Int64(), rl.Flow.ChannelValue.Int64()
-}
-
 // Step reports the verdicts Apply left for this transition and counts the witnesses once per transition.
 func (s *Sc) Step(_ *ksim.World, _ ksim.Op, _ ksim.Result, post *ksim.World) *ksim.Fail {
 	e := xt(post)
@@ -989,16 +1001,19 @@ func (s *Sc) Step(_ *ksim.World, _ ksim.Op, _ ksim.Result, post *ksim.World) *ks
 	return e.fail
 }
 
-// Invariant re-checks the equality on every new state (covers the root) plus the model's own sanity.
+// Invariant is the state oracle: in every state that is expanded the stored rate limit equals the reference
+// window (states in which Apply already reported a divergence are not expanded and not re-reported).
 func (s *Sc) Invariant(w *ksim.World) *ksim.Fail {
-	m := xt(w).M
-	if m.In < 0 || m.Out < 0 {
-		return &ksim.Fail{Key: "reference-negative", Text: fmt.Sprintf("the reference window went negative (in %d, out %d): a packet was refunded without having been counted", m.In, m.Out)}
+	e := xt(w)
+	if e.M.In < 0 || e.M.Out < 0 {
+		s.c.Broken("the reference window went negative (in %d, out %d): the model refunded a packet it had not counted", e.M.In, e.M.Out)
+		return nil
 	}
-	if len(xt(w).Pkts) == 0 {
-		if field, text := s.compare(w); field != "" {
-			return &ksim.Fail{Key: "flow-mismatch/" + field + "/state", Text: text}
-		}
+	if e.Tainted {
+		return nil
+	}
+	if field, text := s.compare(w); field != "" {
+		return &ksim.Fail{Key: "flow-mismatch/" + field + "/state", Text: text}
 	}
 	return nil
 }
@@ -1006,31 +1021,38 @@ func (s *Sc) Invariant(w *ksim.World) *ksim.Fail {
 // ---- parts --------------------------------------------------------------------------------------
 
 func run(c *core.C) {
-	mk := func(cfg Cfg) *Sc { return &Sc{Cfg: cfg, c: c} }
-	d := core.Pick(c, 0, 2)
-	n3 := core.Pick(c, 2, 3)
+	mk := func(cfg Cfg) *Sc { return newSc(c, cfg) }
+	q := c.Quick()
+	if !q && os.Getenv("VERIF_BUDGET_S") == "" && c.Budget > 12*time.Minute {
+		c.Budget = 12 * time.Minute // keeps the thorough tier below 15 minutes of wall time including worker set-up
+	}
+	pick := func(a, b int) int { return core.Pick(c, a, b) }
 	adminQ := []string{"update", "remove", "add", "reset"}
 	adminT := []string{"update", "tighten", "update2h", "remove", "add", "reset"}
+	var flowAdmin []string
+	if !q {
+		flowAdmin = []string{"reset", "tighten"}
+	}
 	parts := []ksim.Part{
 		// quota and net flow in both directions, hour epochs (no packet ever fails)
-		{Name: "macro/voucher/flows", Sc: mk(Cfg{Path: pathVoucher, MaxOut: 3, MaxIn: 3, OutKinds: []int{0}, XinKinds: []int{0, 1}, MaxEpochs: 1, NoAck: true, NoRecv: true, NoTimeout: true}),
-			Cfg: ksim.Config{MaxDepth: 6 + d}, Share: 0.12},
-		{Name: "macro/native/flows", Sc: mk(Cfg{Path: pathNative, MaxOut: 3, MaxIn: 2, OutKinds: []int{0}, XinKinds: []int{0, 1}, MaxEpochs: 1, NoAck: true, NoRecv: true, NoTimeout: true}),
-			Cfg: ksim.Config{MaxDepth: 6 + d}, Share: 0.12},
+		{Name: "macro/voucher/flows", Sc: mk(Cfg{Path: pathVoucher, MaxOut: 3, MaxIn: 3, OutKinds: []int{0}, XinKinds: []int{0, 1}, MaxEpochs: pick(1, 2), NoAck: true, NoRecv: true, NoTimeout: true,
+			Admin: flowAdmin, MaxAdmin: 1}), Cfg: ksim.Config{MaxDepth: pick(7, 8)}, Share: float64(pick(15, 20)) / 100},
+		{Name: "macro/native/flows", Sc: mk(Cfg{Path: pathNative, MaxOut: 3, MaxIn: 2, OutKinds: []int{0}, XinKinds: []int{0, 1}, MaxEpochs: pick(1, 2), NoAck: true, NoRecv: true, NoTimeout: true,
+			Admin: flowAdmin, MaxAdmin: 1}), Cfg: ksim.Config{MaxDepth: pick(7, 10)}, Share: float64(pick(15, 10)) / 100},
 		// refunds: timeouts and error acknowledgements against epoch resets
-		{Name: "macro/voucher/refunds", Sc: mk(Cfg{Path: pathVoucher, MaxOut: 3, OutKinds: []int{1, 2}, Sync: [2]int{0, 2}, MaxDeliver: 2, MaxEpochs: 1, NoRecv: true}),
-			Cfg: ksim.Config{MaxDepth: 6 + d}, Share: 0.2},
+		{Name: "macro/voucher/refunds", Sc: mk(Cfg{Path: pathVoucher, MaxOut: 3, OutKinds: []int{1, 2}, Sync: [2]int{0, 2}, MaxDeliver: pick(2, 3), MaxEpochs: pick(1, 2), NoRecv: true}),
+			Cfg: ksim.Config{MaxDepth: pick(6, 8)}, Share: float64(pick(20, 25)) / 100},
 		// administration against packets in flight
-		{Name: "macro/voucher/admin-timeouts", Sc: mk(Cfg{Path: pathVoucher, MaxOut: n3, MaxIn: 1, OutKinds: []int{1}, XinKinds: []int{0}, Sync: [2]int{0, 1}, MaxEpochs: core.Pick(c, 0, 2), NoRecv: true, NoAck: true,
-			Admin: core.Pick(c, adminQ, adminT), MaxAdmin: 2}), Cfg: ksim.Config{MaxDepth: 6 + d}, Share: 0.3},
-		{Name: "macro/native/admin-error-acks", Sc: mk(Cfg{Path: pathNative, MaxOut: 2, OutKinds: []int{2, 0}, MaxDeliver: 2, NoRecv: true, NoTimeout: true,
-			Admin: core.Pick(c, []string{"update", "reset"}, adminT), MaxAdmin: core.Pick(c, 1, 2)}), Cfg: ksim.Config{MaxDepth: 6 + d}, Share: 0.35},
+		{Name: "macro/voucher/admin-timeouts", Sc: mk(Cfg{Path: pathVoucher, MaxOut: pick(2, 3), MaxIn: 1, OutKinds: []int{1}, XinKinds: []int{0}, Sync: [2]int{0, 1}, MaxEpochs: pick(0, 2), NoRecv: true, NoAck: true,
+			Admin: core.Pick(c, adminQ, adminT), MaxAdmin: 2}), Cfg: ksim.Config{MaxDepth: pick(7, 8)}, Share: float64(pick(35, 45)) / 100},
+		{Name: "macro/native/admin-error-acks", Sc: mk(Cfg{Path: pathNative, MaxOut: pick(2, 3), OutKinds: []int{2, 0}, MaxDeliver: pick(2, 3), MaxEpochs: pick(0, 1), NoRecv: true, NoTimeout: true,
+			Admin: core.Pick(c, []string{"update", "reset"}, adminT), MaxAdmin: pick(1, 2)}), Cfg: ksim.Config{MaxDepth: pick(7, 8)}, Share: float64(pick(35, 60)) / 100},
 		// whitelist / blacklist set-up changes
 		{Name: "macro/voucher/lists", Sc: mk(Cfg{Path: pathVoucher, MaxOut: 3, MaxIn: 2, OutKinds: []int{1}, XinKinds: []int{0}, Sync: [2]int{0, 1}, NoRecv: true, NoAck: true,
-			Toggles: []string{"wl-out", "wl-in", "bl"}, MaxToggles: 2}), Cfg: ksim.Config{MaxDepth: 5 + d}, Share: 0.5},
+			Toggles: []string{"wl-out", "wl-in", "bl"}, MaxToggles: pick(2, 3)}), Cfg: ksim.Config{MaxDepth: pick(6, 9)}, Share: 0.5},
 		// primitive steps: separate commit / client update, relays with stale consensus heights, duplicates
-		{Name: "micro/voucher/stale-relays", Sc: mk(Cfg{Path: pathVoucher, MaxOut: 2, MaxIn: 1, OutKinds: []int{1}, InKinds: []int{0}, Sync: [2]int{1, 2}, Primitive: true,
-			Admin: []string{"update"}, MaxAdmin: 1}), Cfg: ksim.Config{MaxDepth: 6 + d}},
+		{Name: "micro/voucher/stale-relays", Sc: mk(Cfg{Path: pathVoucher, MaxOut: 2, MaxIn: pick(0, 1), OutKinds: []int{1}, InKinds: []int{0}, Sync: [2]int{pick(0, 1), 2}, Primitive: true,
+			Admin: []string{"update"}, MaxAdmin: 1}), Cfg: ksim.Config{MaxDepth: pick(6, 9)}},
 	}
 	if f := os.Getenv("VERIF_C41_PART"); f != "" && c.Replay == "" {
 		// development aid: run only the parts whose name contains f (the run is then reported as not exhaustive)
@@ -1044,11 +1066,19 @@ func run(c *core.C) {
 		parts = sel
 		defer c.Set("exhaustive", false)
 	}
+	o := func(k string, a ...int) ksim.Op { return ksim.Op{K: k, A: a} }
+	// sample histories (each was executed through the replay path while developing; outcomes in the comments)
 	ksim.RunParts(c, parts, [][]ksim.Op{
-		{{K: "out", A: []int{0}}, {K: "out", A: []int{0}}, {K: "xin", A: []int{0}}, {K: "out", A: []int{0}}, {K: "out", A: []int{0}}},
-		{{K: "out", A: []int{1}}, {K: "epoch"}, {K: "out", A: []int{1}}, {K: "timeout", A: []int{0, 0}}},
-		{{K: "out", A: []int{2}}, {K: "deliver", A: []int{0}}, {K: "ack", A: []int{0, 0}}},
-		{{K: "out", A: []int{1}}, {K: "update"}, {K: "out", A: []int{1}}, {K: "sync", A: []int{1}}, {K: "timeout", A: []int{0, 0}}},
+		// voucher path: OK OK ERR(quota) OK(inflow 1) OK ERR(quota): two of three unit transfers fit, an inflow makes room for one more
+		{o("out", 0), o("out", 0), o("out", 0), o("xin", 0), o("out", 0), o("out", 0)},
+		// a packet sent before the hour boundary times out after it: the new window's outflow stays 1; the second relay is a NOOP
+		{o("out", 1), o("epoch"), o("out", 1), o("timeout", 0, 9), o("timeout", 0, 9)},
+		// blocked receiver on B: error acknowledgement refunds the outflow exactly once
+		{o("out", 2), o("deliver", 0), o("ack", 0, 9), o("ack", 0, 9)},
+		// native path: third transfer refused, accepted again after an inflow and after the epoch reset
+		{o("out", 0), o("out", 0), o("out", 0), o("xin", 0), o("out", 0), o("epoch"), o("out", 0)},
+		// the suspected defect (DESIGN 4.8): MsgUpdateRateLimit keeps the pending marker of the older packet
+		{o("out", 1), o("update"), o("out", 1), o("sync", 1), o("timeout", 0, 9)},
 	})
 	if c.Replay != "" {
 		return
@@ -1061,7 +1091,7 @@ func run(c *core.C) {
 		}
 	}
 	c.Set("witness_transitions", tot)
-	if !c.Capped() && c.Violations() == 0 && os.Getenv("VERIF_C41_PART") == "" {
+	if !c.Capped() && c.Violations() <= 5 && os.Getenv("VERIF_C41_PART") == "" {
 		for _, n := range []string{"out_rejected_by_quota", "in_rejected_by_quota", "in_error_ack_blocked_receiver", "refund_of_packet_counted_in_current_window",
 			"timeout_or_error_ack_of_packet_from_older_window", "epoch_reset", "admin_started_window", "duplicate_relay_noop"} {
 			if tot[n] == 0 {
